@@ -340,6 +340,8 @@ func (l *Ledger) formatBlock(txList []*pb.Transaction,
 func (l *Ledger) saveBlock(block *pb.InternalBlock, batchWrite kvdb.Batch) error {
 	blockBuf, pbErr := proto.Marshal(block)
 	l.blkHeaderCache.Add(string(block.Blockid), block)
+	// the header is being rewritten, a full block cached by QueryBlock would keep the old one
+	l.blockCache.Del(string(block.Blockid))
 	if pbErr != nil {
 		l.xlog.Warn("marshal block fail", "pbErr", pbErr)
 		return pbErr
